@@ -330,6 +330,8 @@ const TEMPLATES: [&str; 12] = [
     "{% cycle 'g': 'a', 'b' %}-{% cycle 'g': 'a', 'b' %}|{% cycle 'h': 1, 2 %}{% cycle 'h': 1, 2 %}|{% cycle 'x', 'y' %}{% cycle 'x', 'y' %}|{% for i in (1..2) %}{% cycle 'g': 'a', 'b' %}{{ i | plus: 1 | append: who }}{% endfor %}{% include 'm' %}",
 ];
 
+const FIRST_PARSED_BY_THE_THREADS: [usize; 1] = [11];
+
 struct World {
     parser: liquid::Parser,
     templates: Vec<liquid::Template>,
@@ -361,7 +363,9 @@ fn language() -> Arc<liquid_core::parser::Language> {
 fn world() -> World {
     use liquid_core::partials::PartialCompiler;
     let parser = liquid::ParserBuilder::with_stdlib().tag(YieldTag).filter(YieldF).partials(liquid::partials::LazyCompiler::new(source())).build().expect("parser builds");
-    let templates = TEMPLATES.iter().map(|t| parser.parse(t).expect("template parses")).collect();
+    // templates listed in FIRST_PARSED_BY_THE_THREADS are not parsed here: the managed threads are the
+    // first to show their text (and every name in it) to the shared parser
+    let templates = TEMPLATES.iter().enumerate().map(|(i, t)| parser.parse(if FIRST_PARSED_BY_THE_THREADS.contains(&i) { "" } else { t }).expect("template parses")).collect();
     let store = liquid::partials::LazyCompiler::new(source()).compile(language()).expect("store compiles");
     let mut data = liquid::Object::new();
     data.insert("name".into(), liquid::model::Value::scalar("missing"));
